@@ -8,6 +8,10 @@ TECH_A = "explicit TLA+ specification checked with TLC; every TLC-generated beha
 TECH_AB = TECH_A + "; traces recorded from the real code validated against a TLA+ trace specification with TLC"
 
 CLAIMS = {
+ "C01": dict(
+    text="LiquidSyntax models the parser protocol as a pushdown machine over the element stream of the lax grammar (open blocks with their modes, raw and comment scanning, else/elsif/when contexts, EOI inside a block = unclosed) ending in accept / reject / unspecified; TLC enumerates every element sequence up to the bound, checks that the machine is never stuck (no expect can fire) and that accept implies every block closed, and every sequence is parsed by the real parser under three configurations and compared with the verdict (a panic, abort or hang is a disagreement of the record in flight; rejections must carry a message). Random longer token soups, lexical sequences inside host tags, nesting towers to depth 32 and character-level mutations of valid templates are parsed and their Call/Return trace validated with TLC (Trace_Calls): a call without a Return, or a rejection without a message, has no explanation.",
+    note="bounded: element sequences <= 4 structural / <= 2 full alphabet (quick), <= 5 / <= 3 (thorough); the per-tag argument grammar is covered for totality, not verdict; four repaired defects (EOI inside nested block in a comment, 20-digit integer literal, error-path re-parse).",
+    tech=TECH_AB, ref="DESIGN.md 7 C01"),
  "C03": dict(
     text="LiquidText defines templates as item sequences with independent trim flags on every delimiter side, their source text and, declaratively, their output (a text segment loses exactly its maximal whitespace run towards a trimming delimiter; raw bodies verbatim; comments nothing and no effect); TLC enumerates the bounded template space and checks identity on plain text, that only whitespace is ever removed and that the grammar-shaped whitespace class refines the property's; every template is rendered by the real parser (with a probe that exposes side effects of comments) and compared byte for byte.",
     note="bounded: whitespace runs <= 2 (quick) / 3 (thorough), inner padding 0..1 / 0..3, one or two markups per template; two defects found by this check were repaired (tab not whitespace; raw body ending in a trimming pseudo-tag).",
